@@ -27,6 +27,7 @@ type Env struct {
 	specDepth   int
 	paramVars   map[string]TV       // function parameters: shadowed by locals at the anchor
 	absIdx      map[string]absIndex // quantified variables rebased to absolute row positions
+	curParams   bool                // inside cur(...): a reassigned parameter denotes its current value
 }
 
 // absIndex: the bound variable `name` is represented as (abs - off) so that
@@ -274,6 +275,11 @@ func (f *frame) transIdent(name string, env *Env) TV {
 	case "nil":
 		return TV{T: "nil", S: "nil"}
 	}
+	if env.curParams {
+		if tv, ok := f.localAt(name, env); ok {
+			return tv
+		}
+	}
 	if tv, ok := env.vars[name]; ok {
 		return tv
 	}
@@ -334,7 +340,14 @@ func (f *frame) localAt(name string, env *Env) (TV, bool) {
 			// a join of the variable's definitions (the source variable is named in
 			// the phi's comment)
 			if phi, ok := in.(*ssa.Phi); ok && phi.Comment == name {
-				if _, isLV := f.lvs[phi]; !isLV {
+				// (a reassigned parameter keeps denoting its entry value)
+				isParam := false
+				for _, p := range f.fn.Params {
+					if p.Name() == name {
+						isParam = true
+					}
+				}
+				if _, isLV := f.lvs[phi]; !isLV && (!isParam || env.curParams) {
 					consider(&cand{x: phi, b: b})
 				}
 				continue
@@ -354,7 +367,7 @@ func (f *frame) localAt(name string, env *Env) (TV, bool) {
 						isParam = true
 					}
 				}
-				if isParam {
+				if isParam && !env.curParams {
 					continue
 				}
 				if d.IsAddr {
@@ -769,6 +782,11 @@ func (f *frame) transCall(x *CCall, env *Env) TV {
 		need(2)
 		a, b := arg(0), arg(1)
 		return TV{T: fmt.Sprintf("(not (= (s_base %s) (s_base %s)))", a.T, b.T), S: "Bool"}
+	case "samearray":
+		// samearray(a, b): the slices start at the same element of the same backing array
+		need(2)
+		a, b := arg(0), arg(1)
+		return TV{T: fmt.Sprintf("(and (= (s_base %s) (s_base %s)) (= (s_off %s) (s_off %s)))", a.T, b.T, a.T, b.T), S: "Bool"}
 	case "same":
 		need(2)
 		a, b := arg(0), arg(1)
@@ -799,6 +817,12 @@ func (f *frame) transCall(x *CCall, env *Env) TV {
 			return TV{T: f.bytesToStr(env.st, v.T), S: "Str", Ty: types.Typ[types.String]}
 		}
 		cfail("string() of sort %s", v.S)
+	case "cur":
+		// cur(e): in e a reassigned parameter denotes its current value
+		need(1)
+		ne := *env
+		ne.curParams = true
+		return f.trans(x.Args[0], &ne)
 	case "unchanged":
 		// unchanged(e): e (a map: with its contents) has the value it had in the pre-state
 		need(1)
